@@ -12,15 +12,15 @@ Desc == Descs[d]
 Init == d \in 1..Len(Descs) /\ argv = <<>> /\ upd = <<>> /\ phase = "parse"
 ObsP == Run(DeriveCmd(Desc, FALSE), argv)
 Feed(tok) == phase = "parse" /\ Len(argv) < MaxArgv /\ argv' = Append(argv, tok) /\ UNCHANGED <<d, upd, phase>>
-\* start updating only from a successfully parsed value of a type without subcommands
-StartUpdate == phase = "parse" /\ ~Desc.subs.present /\ MaxUpdate > 0 /\ ObsP.outcome = "Ok" /\ phase' = "update" /\ UNCHANGED <<d, argv, upd>>
+\* start updating from any successfully parsed value
+StartUpdate == phase = "parse" /\ MaxUpdate > 0 /\ ObsP.outcome = "Ok" /\ phase' = "update" /\ UNCHANGED <<d, argv, upd>>
 FeedU(tok) == phase = "update" /\ Len(upd) < MaxUpdate /\ upd' = Append(upd, tok) /\ UNCHANGED <<d, argv, phase>>
 Next == (\E k \in 1..Len(Desc.alphabet) : Feed(Desc.alphabet[k]) \/ FeedU(Desc.alphabet[k])) \/ StartUpdate
 Spec == Init /\ [][Next]_vars
 
 Value == Extract(Desc, ObsP)
 ObsU == Run(DeriveCmd(Desc, TRUE), upd)
-Updated == [Value EXCEPT !.top = UpdateTop(Desc, Value.top, ObsU.chain[1])]
+Upd == UpdateValue(Desc, Value, ObsU)
 
 \* design level: printing a parsed value and parsing it again gives the same value
 RoundTrip ==
@@ -39,5 +39,6 @@ Emit == EmitOn =>
                                    printed |-> IF ObsP.outcome = "Ok" /\ Printable(Desc, Value) THEN PrintValue(Desc, Value) ELSE <<>>,
                                    printable |-> ObsP.outcome = "Ok" /\ Printable(Desc, Value)])>>)
   ELSE PrintT(<<"REPLAY", ToJson([d |-> d, mode |-> "update", argv |-> argv, upd |-> upd, obs |-> ObsU,
-                                   value |-> IF ObsU.outcome = "Ok" THEN Updated ELSE Value, printed |-> <<>>, printable |-> FALSE])>>)
+                                   upd_ok |-> ObsU.outcome = "Ok" /\ Upd.ok,
+                                   value |-> IF ObsU.outcome = "Ok" /\ Upd.ok THEN Upd.v ELSE Value, printed |-> <<>>, printable |-> FALSE])>>)
 =============================================================================
